@@ -55,6 +55,21 @@ class VRuntimeExc(VExc, RuntimeError):
     """same, but a RuntimeError (callers sometimes treat those specially)"""
 
 
+class VStateExc(VExc, asyncio.InvalidStateError):
+    """same, but an asyncio.InvalidStateError (what the Future / Task API itself raises)"""
+
+
+class VLookupExc(VExc, KeyError):
+    """same, but a KeyError (its str() is the repr of its argument)"""
+
+
+class VTimeoutExc(VExc, TimeoutError):
+    """same, but a TimeoutError (what wait_for raises inside a job)"""
+
+
+EXC_CLASSES = {"runtime": VRuntimeExc, "state": VStateExc, "lookup": VLookupExc, "timeout": VTimeoutExc}
+
+
 class VBaseExc(BaseException):
     """same, but not derived from Exception (a home-made abort class): asyncio stores it on the
     task like any other, and the package must treat it like any other"""
@@ -102,6 +117,7 @@ class Ctx:
         self.snapping = bool(sc.get("snap", True))
         self.excs = {}     # id(exception object) -> (object, origin)
         self.pre = False   # the shutdown issued before the run is going on
+        self.early = None  # the coroutine object of the top-level run, when created early
         self.left = set()  # nodes whose body has been cancelled or has ended
 
     # -- scenario accessors (1-based nodes)
@@ -192,7 +208,7 @@ class Ctx:
             self.stall(node)
             # an exception may carry no message at all (a bare assert, TimeoutError())
             klass = VBaseExc if self.h.get("baseexc") and node % 3 != 0 else \
-                VRuntimeExc if self.h.get("rterr") else VExc
+                VRuntimeExc if self.h.get("rterr") is True else EXC_CLASSES.get(self.h.get("rterr"), VExc)
             raise klass(node, () if self.h.get("emptymsg") else None)
         self.log("end", node)
         self.peek()
@@ -386,7 +402,11 @@ def make_classes(ctx):
             node = self._vnode
             ctx.log("run-begin", node)
             try:
-                val = await self._vbase.co_run(self)
+                if node == 1 and ctx.early is not None:
+                    inner, ctx.early = ctx.early, None
+                else:
+                    inner = self._vbase.co_run(self)
+                val = await inner
             except asyncio.CancelledError:
                 ctx.log("run-exc", node, "cancelled")
                 raise
@@ -442,6 +462,8 @@ def build(ctx):
     for i in range(2, n + 1):
         kids[ctx.g("parent", i)].append(i)
 
+    deferred = []
+
     def label_of(node):
         # a label is optional
         return None if ctx.h.get("nolabel") and node % 3 == 0 else "n%d" % node
@@ -452,8 +474,12 @@ def build(ctx):
             if ctx.h.get("lateattr"):
                 # flags are plain attributes too: built with the defaults, assigned afterwards
                 ctx.obj[node] = klass(node, label=label_of(node))
-                ctx.obj[node].critical = ctx.g("crit", node)
-                ctx.obj[node].forever = ctx.g("forever", node)
+                if node % 2:
+                    ctx.obj[node].critical = ctx.g("crit", node)
+                    ctx.obj[node].forever = ctx.g("forever", node)
+                else:
+                    # ... also once the job has joined its scheduler
+                    deferred.append(node)
             else:
                 ctx.obj[node] = klass(node, critical=ctx.g("crit", node),
                                       forever=ctx.g("forever", node),
@@ -469,6 +495,10 @@ def build(ctx):
             watch = Watch(show_elapsed=False)
         # "None or 0 means no limit"
         nolimit = 0 if ctx.h.get("zerowin") else None
+        if win and ctx.h.get("enumwin"):
+            # an integer is an integer, also when it is a member of an IntEnum
+            import enum
+            win = enum.IntEnum("Parallelism", {"W%d" % win: win})["W%d" % win]
         kwds = dict(watch=watch, jobs_window=nolimit if win == 0 else win,
                     timeout=None if tmo < 0 else tmo,
                     shutdown_timeout=None if stmo < 0 else stmo,
@@ -491,6 +521,11 @@ def build(ctx):
                                    critical=ctx.g("crit", node),
                                    forever=ctx.g("forever", node),
                                    label=label_of(node), **kwds)
+        if node == 1 and style != "ctor" and ctx.h.get("earlycoro") and ctx.cfg.get("ucancel", -1) < 0:
+            # co_run() is a coroutine function: calling it does nothing until the result is
+            # awaited; the scheduler may still be filled in between
+            ctx.early = ctx.obj[node]._vbase.co_run(ctx.obj[node])
+            ctx.coros.append(ctx.early)
         if style == "add":
             for member in members:
                 ctx.obj[node].add(member)
@@ -505,6 +540,15 @@ def build(ctx):
         return ctx.obj[node]
 
     top = mk(1)
+    for node in deferred:
+        ctx.obj[node].critical = ctx.g("crit", node)
+        ctx.obj[node].forever = ctx.g("forever", node)
+    if ctx.h.get("earlycoro") and ctx.cfg.get("ucancel", -1) < 0 and ctx.early is None:
+        # co_run() is a coroutine function: calling it does nothing until the result is
+        # awaited; the graph may still be edited in between
+        # (the library's own coroutine function: the wrapper of SchedMixin awaits this object)
+        ctx.early = top._vbase.co_run(top)
+        ctx.coros.append(ctx.early)
     edges = [(i, r) for i in range(2, n + 1) for r in ctx.g("req", i)]
     prep = ctx.h.get("prep", 0)
     half = len(edges) // 2 if prep == 1 else len(edges)
